@@ -87,6 +87,37 @@ def lex_prim(it, P_, sp, dest_ty):
         chars = P_.args[0]
         q = run_of(chars, negate=True)
         return okspan(q) if q > p else G.nom_error(it, sp)
+    if k in ('take_while', 'take_while1', 'take_till', 'take_till1', 'satisfy'):
+        # predicate closures (|c: char| ...) are evaluated from their MIR on every symbol of the alphabet; the bytes stay symbolic
+        pred = P_.args[0]
+        pv = pred.get() if type(pred) is Ref else pred
+        key = None
+        if type(pv) is Closure and not pv.fields:
+            key = 'closure@' + pv.span
+        elif type(pv) is FnItem:
+            key = 'fn ' + pv.path
+        cache = lx.__dict__.setdefault('_predsets', {})
+        acc = cache.get(key) if key else None
+        if acc is None:
+            acc = ''
+            for ch in lx.alphabet:
+                r = it.call_value(pred.get() if type(pred) is Ref else pred, [E.Char(ch)])
+                if E.is_sym(r):
+                    raise Inconclusive('predicate of %s is symbolic on a concrete character' % k)
+                if r:
+                    acc += ch
+            if key:
+                cache[key] = acc
+        if k == 'satisfy':
+            if p >= n:
+                return G.nom_error(it, sp)
+            if it.decide(lx.is_in(p, acc), k):
+                return ok(Tup([G.span(p + 1), Opaque('AbsChar', {'off': p, 'w': 1})]))
+            return G.nom_error(it, sp)
+        q = run_of(acc, negate=k.startswith('take_till'))
+        if k.endswith('1') and q == p:
+            return G.nom_error(it, sp)
+        return okspan(q)
     if k in ('one_of', 'none_of', 'char', 'anychar'):
         if p >= n:
             return G.nom_error(it, sp)
